@@ -60,8 +60,26 @@ class ChainCZ:
         pick = set()
         cand = SPELLINGS[:] if not real_only else []
         rng.shuffle(cand)
+        # in one chain out of three some names are spellings of each other (extension, truncation, case twin, a name that
+        # matches another read as a shell pattern): see decio.related_variants
+        related = rng.random() < 0.34
+        poolset = set(pool) if real_only else None
         while len(pick) < len(names):
-            w = cand.pop() if cand and rng.random() < 0.6 else rng.choice(pool)
+            w = None
+            if related and pick and rng.random() < 0.5:
+                base = rng.choice(sorted(pick))
+                if real_only:
+                    import fnmatch
+                    near = [n for n in pool if n != base and n not in pick and
+                            (n.lower() == base.lower() or base in n or n in base or fnmatch.fnmatchcase(n, base)
+                             or fnmatch.fnmatchcase(base, n))]
+                    w = rng.choice(near) if near else None
+                else:
+                    forms = [v for v in decio.related_variants(base) if len(v) > 1 and v not in pick and decio.label_ok(v)
+                             and _readable(v) and " " not in v]
+                    w = rng.choice(forms) if forms else None
+            if w is None:
+                w = cand.pop() if cand and rng.random() < 0.6 else rng.choice(pool)
             pick.add(w)
         conc = sorted(pick)
         order = list(names)
